@@ -1,4 +1,6 @@
 import Martian.Lemmas.Verify
+import Martian.Props.C13.Conc
+import Martian.Props.C13.Locks
 /-!
 C13 — verification reports exactly the unmet expectations since the last reset.
 
@@ -8,8 +10,9 @@ from the source on every run (`Generated/Verify.lean`: the branch fields each of
 four walks visits, `MultiError.Add`'s unwrapping, the API-request guard of every verifier).
 They hold for every tree (any nesting of groups and filters, both branches, all verifier kinds,
 non-verifier modifiers that may fail), every exchange and every history — by structural induction
-on the tree and induction on the history. Data-race freedom is not expressible in this
-sequential model; see `facts_multierror_locked` and the race tier of the harness.
+on the tree and induction on the history. The concurrent clause (queries and resets racing
+traffic) is in `Props/C13/Conc.lean` (interleavings of atomic steps) and `Props/C13/Locks.lean`
+(data-race freedom from the regenerated lock facts).
 -/
 namespace Martian.Props.C13
 open Martian Martian.Verify
@@ -28,10 +31,12 @@ theorem facts_verifiers_skip_api :
       ["status.res", "header.req", "header.res", "method.req", "url.req", "qs.req", "failure.req", "pingback.req"] ∧
     Generated.Verify.skipsApi.all (·.2) = true := by decide
 
-/-- Every method of `MultiError` takes the mutex first (F13c-Empty), and `Add` unwraps a nested
-`*MultiError`. Lock discipline of the verifiers' own fields is NOT covered (F13c-swap). -/
+/-- Every method of `MultiError` (whichever methods it has; `Add`, `Errors`, `Empty` among them)
+takes the mutex first (F13c-Empty), and `Add` unwraps a nested `*MultiError`. The lock discipline
+of the whole machinery is in `Props/C13/Locks.lean`. -/
 theorem facts_multierror_locked :
-    Generated.Verify.multiErrorLocked = [("Error", true), ("Errors", true), ("Add", true), ("Empty", true)] ∧
+    Generated.Verify.multiErrorLocked.all (·.2) = true ∧
+    (["Add", "Errors", "Empty"].all fun m => (Generated.Verify.multiErrorLocked.map (·.1)).contains m) = true ∧
     Generated.Verify.multiErrorAddFlattens = true := by decide
 
 /-! ### histories -/
